@@ -225,16 +225,17 @@ def plant(rng, kind, cmd='cmd'):
     if kind == 'subword_spaces':
         l1, l2 = f.lit('sp'), f.lit('sp')
         pre = f.lit('--p') + '='
-        if rng.random() < 0.5:
+        variant = rng.choice(['written', 'written_alt', 'through_def', 'nested_left'])
+        if variant in ('written', 'written_alt'):
             # the word is written out (`--p=(a b)`), and sits in the call variant or behind whole-word references
-            w = '%s(%s %s)' % (pre, l1, l2) if rng.random() < 0.6 else '%s(%s | %s %s)' % (pre, f.lit('v'), l1, l2)
+            w = '%s(%s %s)' % (pre, l1, l2) if variant == 'written' else '%s(%s | %s %s)' % (pre, f.lit('v'), l1, l2)
             use, extra = through_defs(w)
             stmts[0] = stmts[0][:-1] + ' ' + use + ';'
             return stmts + extra, 'SubwordSpaces', l1
         # the spaces come from a definition that is referenced inside a word
         n = f.name('W')
         inner, extra = '%s %s' % (l1, l2), []
-        if rng.random() < 0.3:
+        if variant == 'nested_left':
             inner = '(%s %s) %s' % (c.cmd(), l1, l2)     # the left operand starts with something else
         for _ in range(chain):
             m = f.name('H')
